@@ -23,11 +23,14 @@ abbrev User := Nat
 
 inductive Factor
   | password | hwToken | vip | totp | okta | bootstrap | cli
+  /-- a verified keymaster-issued TLS client certificate of the user was presented (AuthTypeKeymasterX509) -/
+  | x509
 deriving DecidableEq, Repr
 
 /-- bit index of an auth level ↦ the factor it stands for (AuthTypeU2F and AuthTypeFIDO2 both mean
-"a hardware token of the user produced an assertion"). Bits 0,2,5,9 (none/federated/IP cert/X509) are
-never set by the handlers modelled here. -/
+"a hardware token of the user produced an assertion"). Bit 9 (X509) is only ever set when the request was
+authenticated by a client certificate (`KM.SessionCert`); bits 0,2,5 (none/federated/IP cert) are never set
+by the handlers modelled here. -/
 def bitFactor : Nat → Option Factor
   | 1 => some .password
   | 3 => some .hwToken
@@ -35,6 +38,7 @@ def bitFactor : Nat → Option Factor
   | 6 => some .totp
   | 7 => some .okta
   | 8 => some .bootstrap
+  | 9 => some .x509
   | 10 => some .cli
   | 11 => some .hwToken
   | _ => none
